@@ -431,6 +431,11 @@ PARSED = [
 def corpus():
     e2 = START[1]
     cs = [
+        {"k": "ops", "e": START[1], "ops": ops}
+        for ops in ([["setitem", "note ", "v"], ["contains", "note "], ["contains", "note"], ["getitem", "note "], ["setitem", " a", 1],
+                     ["get", "a", None], ["pop", "note ", None], ["delitem", " a"]],
+                    [["setfield", ["a\t", "z", 9]], ["setfield", ["\na", "y", 3]], ["get", "a\t", None], ["pop", "a", None], ["contains", "\na"]])
+    ] + [
         {"k": "ops", "e": pe, "ops": ops}
         for pe in PARSED
         for ops in ([["setitem", "note", "v"], ["setfield", ["a", "z", 9]], ["getitem", "note"], ["pop", "note", None], ["contains", "a"]],
